@@ -35,6 +35,20 @@ CLAIMED = {
         text="Seeded histories of laws/applies_to assignments and universe constructions; u.laws is L iff L.applies_to is u over every known pair after every step.",
         note="Law sets built without applies_to=; what a displaced partner receives is not dictated beyond the invariant.",
     ),
+    "C05": dict(
+        cat="exploration",
+        ref="DESIGN.md 4/C05",
+        technique="deterministic simulation: twin worlds (cached under a seeded flag schedule vs. uncached) driven by one history of mutations and reads, with flag flips, process restarts (nrpickler dump -> fresh interpreter via exec or zygote fork) and seeded interleaving of suspended generator traversals; every read compared",
+        text="Seeded search over interleavings of mutations (every public mutator, entered through either end, the edge, unlink, builders), reads (neighbors in all argument combinations, six traversal forms, three searches), cache-flag flips, one restart per run and up to four live generator traversals; the uncached twin is the property's own oracle.",
+        note="Reference = the same library code with NEIGHBOR_CACHING False. Zygote forks stand in for fresh interpreters for volume; a fixed share are real exec restarts and replays always exec.",
+    ),
+    "C12": dict(
+        cat="exploration",
+        ref="DESIGN.md 4/C12",
+        technique="deterministic simulation with fault injection: a misbehaving client scribbles on exchanged containers (returned and handed-in) at seeded points of a twin-world history, cache off/on/toggling; extended snapshots and all later reads compared with the unscribbled uncached twin",
+        text="Injected corruption of every exchanged container kind (list/set/dict mutations, inner level too) followed by continued operation; immutable containers must refuse.",
+        note="'Copied' concerns the collection passed, not objects stored in it. Reference = the twin that never meets the misbehaving client.",
+    ),
     "C17": dict(
         cat="exploration",
         ref="DESIGN.md 4/C17",
@@ -69,7 +83,7 @@ NOT_APPLICABLE = {
     "C16": "A text formatter of the current state; nothing a simulator controls enters it (DESIGN 4/C14-16).",
 }
 
-PENDING = {k: 'check not built yet in this commit (claimed in DESIGN.md; machinery in progress)' for k in ['C05','C10','C11','C12','C13']}
+PENDING = {k: 'check not built yet in this commit (claimed in DESIGN.md; machinery in progress)' for k in ['C10','C11','C13']}
 
 
 def main():
